@@ -368,6 +368,150 @@ type FeedReader struct {
 	// the next feed entry. Pages read while writers commit are judged against several serial states; where
 	// identical versions make more than one of them fit, the token tells which one the hub read
 	TokenIsIndex bool
+	// Compacting: a deduplicating compaction may run between and during the pages. An entity whose newest
+	// version is one of a run of identical versions is then handed out at any one position of that run (the
+	// compaction moves "newest" back to the first of them)
+	Compacting bool
+	delivered  map[string]bool // entities handed out at a position of such a run
+	passedIn   map[string]int  // entity -> page in which the reader went past the first position of its run
+}
+
+// dupRuns: for every entity whose newest version is identical to its predecessor, the positions of the
+// trailing run of identical versions (the first of them included).
+func (d *DSModel) dupRuns() (pos map[int]bool, first map[string]int) {
+	pos, first = map[int]bool{}, map[string]int{}
+	rem := d.removable()
+	byEnt := map[string][]int{}
+	for i, v := range d.Versions {
+		byEnt[v.C.ID] = append(byEnt[v.C.ID], i)
+	}
+	for id, j := range d.Latest {
+		if !rem[j] {
+			continue
+		}
+		l := byEnt[id]
+		k := len(l) - 1
+		for k > 0 && d.Versions[l[k-1]].Str == d.Versions[j].Str {
+			k--
+		}
+		for _, p := range l[k:] {
+			pos[p] = true
+		}
+		first[id] = l[k]
+	}
+	return pos, first
+}
+
+// verifyCompacting is Verify for a latest-only reader of a dataset under compaction.
+func (r *FeedReader) verifyCompacting(d *DSModel, got []string, nextToken uint64, limit int) *Violation {
+	kind := "latestOnly"
+	opt, first := d.dupRuns()
+	delivered, passed := map[string]bool{}, map[string]int{}
+	idx := r.Idx
+	step := func() {
+		id := d.Versions[idx].C.ID
+		if f, ok := first[id]; ok && f == idx {
+			if _, seen := r.passedIn[id]; !seen {
+				passed[id] = r.Pages
+			}
+		}
+		idx++
+	}
+	for gi, g := range got {
+		for idx < len(d.Versions) {
+			if d.IsLatest(idx) && !opt[idx] {
+				break // has to be handed out here
+			}
+			if opt[idx] && d.Versions[idx].Str == g {
+				break // may be handed out here
+			}
+			step()
+		}
+		if idx >= len(d.Versions) {
+			return viol("C02", "reader", kind+":page:extra-entry", "reader on %s (%s) token %d limit %d at feed index %d: entry %d of the page (%s) is beyond the end of the feed (%d versions)",
+				r.DS, kind, r.Token, limit, r.Idx, gi, g, len(d.Versions))
+		}
+		if d.Versions[idx].Str != g {
+			return viol("C02", "reader", kind+":page:wrong-entry", "reader on %s (%s) token %d limit %d: entry %d of the page is %s, the next unread feed entry (index %d) is %s",
+				r.DS, kind, r.Token, limit, gi, g, idx, d.Versions[idx].Str)
+		}
+		if opt[idx] {
+			id := d.Versions[idx].C.ID
+			if r.delivered[id] || delivered[id] {
+				return viol("C02", "reader", kind+":page:repeated-entry", "reader on %s (%s) token %d limit %d: entry %d of the page is %s, which the reader was given before (its newest version is one of several identical ones)",
+					r.DS, kind, r.Token, limit, gi, g)
+			}
+			delivered[id] = true
+		}
+		step()
+	}
+	if len(got) == 0 || (limit > 0 && len(got) < limit) || limit == 0 {
+		for idx < len(d.Versions) {
+			if d.IsLatest(idx) && !opt[idx] {
+				return viol("C02", "reader", kind+":page:missing-entry", "reader on %s (%s) token %d limit %d returned %d entries and stopped at feed index %d although entry %d (%s) is unread",
+					r.DS, kind, r.Token, limit, len(got), idx, idx, d.Versions[idx].Str)
+			}
+			step()
+		}
+		// the reader is at the end of the feed: it must have been given every entity
+		ids := make([]string, 0, len(first))
+		for id := range first {
+			ids = append(ids, id)
+		}
+		sort.Strings(ids)
+		for _, id := range ids {
+			if r.delivered[id] || delivered[id] {
+				continue
+			}
+			p, ok := r.passedIn[id]
+			if !ok {
+				p = passed[id]
+			}
+			if p < r.Pages {
+				// went past the first of the identical versions in an earlier page (it was not the newest then), the
+				// compaction then removed the later ones and made the first one the newest: behind the reader
+				return viol("C02", "reader", kind+":follower-misses-compacted-duplicate", "reader on %s (%s) reached the end of the feed over %d pages and was never given %s: its newest version is one of several identical ones, the reader had passed the first of them (index %d, page %d) when the compaction removed the others",
+					r.DS, kind, r.Pages+1, shortURI(id), first[id], p)
+			}
+			return viol("C02", "reader", kind+":page:missing-compacted-duplicate", "reader on %s (%s) token %d limit %d read to the end of the feed in one page and was not given %s, whose newest version is one of several identical ones",
+				r.DS, kind, r.Token, limit, shortURI(id))
+		}
+	}
+	if nextToken < r.Token {
+		return viol("C02", "reader", kind+":token-regressed", "reader on %s: token went from %d to %d", r.DS, r.Token, nextToken)
+	}
+	if r.TokenIsIndex {
+		// identical versions: the token tells at which of them the hub found the last entry of the page
+		for idx < len(d.Versions) && uint64(idx) < nextToken && !(d.IsLatest(idx) && !opt[idx]) {
+			step()
+		}
+	}
+	tokenOK := nextToken == uint64(idx) || (len(got) == 0 && nextToken == r.Token)
+	if !tokenOK && nextToken < uint64(idx) {
+		// the entries the compaction removed at the very end of the feed are not counted by the hub
+		tokenOK = true
+		for p := int(nextToken); p < idx; p++ {
+			if !opt[p] {
+				tokenOK = false
+			}
+		}
+	}
+	if r.TokenIsIndex && !tokenOK {
+		return viol("C02", "reader", kind+":token-off", "reader on %s (%s) token %d limit %d: the page ends at feed index %d, the token returned is %d", r.DS, kind, r.Token, limit, idx, nextToken)
+	}
+	if r.delivered == nil {
+		r.delivered, r.passedIn = map[string]bool{}, map[string]int{}
+	}
+	for id := range delivered {
+		r.delivered[id] = true
+	}
+	for id, p := range passed {
+		r.passedIn[id] = p
+	}
+	r.Token = nextToken
+	r.Idx = idx
+	r.Pages++
+	return nil
 }
 
 // ReadPage reads one page and checks it against the model.
@@ -386,6 +530,9 @@ func (r *FeedReader) ReadPage(h *Hub, m *Model, limit int) *Violation {
 
 // Verify checks one page (already fetched with the reader's token) against the model feed.
 func (r *FeedReader) Verify(d *DSModel, got []string, nextToken uint64, limit int) *Violation {
+	if r.Latest && r.Compacting {
+		return r.verifyCompacting(d, got, nextToken, limit)
+	}
 	kind := "full"
 	if r.Latest {
 		kind = "latestOnly"
